@@ -12,7 +12,7 @@ ASSUMPTIONS = [
     'bound: blocks of 2 transactions x 1 input x 1 output (lock + optional type script), one lock and one type script registered, one earlier '
     'transaction in the store, same-block spends included; 3 script identities, 4 transaction identities',
     'DECLINED / outside: that sync delivers every block of a script range (liveness), batch boundaries, interleaving with user RPCs, restarts, '
-    'get_cells_capacity sums through RocksDB iterators, rollback_to_block (see C04) and add_fetched_tx (KNOWN: see DESIGN.md section 7)',
+    'get_cells_capacity sums through RocksDB iterators, rollback_to_block (see C04)',
 ]
 CUTS = ['RocksDB -> structured-key store (Key::into_vec yields a structured key; batch = op list)', 'molecule Block / Transaction / Script -> plain structs',
         'tx / block hashes -> identifiers']
@@ -34,8 +34,8 @@ def ex_fetched(repo):
 
 def fetched_rows(ob_id):
     return KModelOb(ob_id, 'filterblock:fetched', 'fetched_rows', 'Storage::add_fetched_header / add_fetched_tx (real text): one atomic batch that always (re)writes the header row and the '
-                    'number -> hash mapping of the proved block (get_transaction_with_header resolves the block by number) plus the transaction row (number, u32::MAX, tx)',
-                    ex_filterblock, 'arbitrary header (number, hash id), transaction, arbitrary "header already stored" flag', cuts=CUTS, timeout=900, mem_gb=8, min_covers=1, weight=2,
+                    'number -> hash mapping of the proved block (get_transaction_with_header resolves the block by number) plus the transaction row (number, u32::MAX, tx) - the index filter_block recorded when the transaction is already indexed in this block (a later spend deletes the live cell by it)',
+                    ex_filterblock, 'arbitrary header (number, hash id), transaction, arbitrary "header already stored" flag', cuts=CUTS, timeout=900, mem_gb=8, min_covers=2, weight=2,
                     rustflags='--cfg fb_small --cfg fb_fetched', field_sensitivity=True)
 
 
